@@ -230,4 +230,55 @@ theorem list_entry_trailing_backslash : pRaw 39 false (replaceChar 39 [92, 39] [
 theorem list_entry_backslash_apostrophe :
     pRaw 39 false (replaceChar 39 [92, 39] [92, 39, 97] ++ [39]) = some ([92, 92], [97, 39]) := by decide
 
+/-- **ArrayWriter / whole definition** (`!list` of type string/char, or an untagged sequence):
+`Name = [r'…', r'…']` evaluates to the list of the entries, each with a backslash before every apostrophe. -/
+theorem list_faithful (env : Str → Option Str) (name : Str) (entries : List Str)
+    (hname : ∀ c ∈ name, isIdentChar c = true) (h : ∀ e ∈ entries, rawOK e = true ∧ noNewline e) :
+    evalDef env (arrayWrite name tString entries) =
+      some (name, .val (.list (entries.map (replaceChar 39 [92, 39])))) := by
+  have e : arrayWrite name tString entries = name ++ 32 :: 61 :: 32 ::
+      (91 :: (join [44, 32] (entries.map (arrayEntry tString)) ++ [93])) := by simp [arrayWrite]
+  rw [e, evalDef_name env name _ hname]
+  cases entries with
+  | nil => simp [evalRhs, join]
+  | cons x r =>
+    have hd : ∃ w, join [44, 32] ((x :: r).map (arrayEntry tString)) ++ [93] = 114 :: w :=
+      ⟨(join [44, 32] ((x :: r).map (arrayEntry tString)) ++ [93]).tail, by cases r <;> simp [join, arrayEntry_string]⟩
+    obtain ⟨w, hw⟩ := hd
+    have hlen : (x :: r).length ≤ w.length + 2 := by
+      have := join_length_ge [44, 32] ((x :: r).map (arrayEntry tString)) (by
+        intro y hy
+        obtain ⟨z, _, rfl⟩ := List.mem_map.mp hy
+        simp [arrayEntry_string])
+      have hl := congrArg List.length hw
+      simp only [List.length_map, List.length_append, List.length_cons, List.length_nil] at this hl ⊢
+      omega
+    have key := pRawItems_join (x :: r) (w.length + 2) (by simp) hlen h
+    rw [hw] at key ⊢
+    simp only [evalRhs, key]
+    rfl
+
+/-! ## `base_code_generator.generate` -/
+
+/-- a block without line-break characters (in the sense of `str.splitlines`) is written as one indented line … -/
+theorem block_single_line (text : Str) (h : ∀ c ∈ text, isLineBreak c = false) (hne : text ≠ []) :
+    blockLines text = indent4 ++ text ++ [10] := by
+  simp [blockLines, splitlines_noBreak text h hne, hne]
+
+/-- … and its value in the file is the value of the writer's text … -/
+theorem block_value_single_line (env : Str → Option Str) (text : Str) (h : ∀ c ∈ text, isLineBreak c = false)
+    (hne : text ≠ []) : evalBlock env text = evalDef env text := by
+  simp [evalBlock, fileText, splitlines_noBreak text h hne, join]
+
+/-- … whereas U+0085 / U+2028 / U+2029 inside a definition (not escaped by `sanitize`) break the line: the
+f-string is cut in two and the module does not evaluate. -/
+theorem block_line_separator_breaks :
+    evalDef (fun _ => none) (regexWrite [65] [97, 8232, 98] []) = some ([65], .val (.str [97, 8232, 98])) ∧
+    evalBlock (fun _ => none) (regexWrite [65] [97, 8232, 98] []) = none := by decide
+
+/-- the file: header comment, blank line, header, the blocks, footer, final newline -/
+theorem assemble_shape (hc header footer : Str) (blocks : List Str) :
+    assemble hc header footer blocks =
+      hc ++ [10, 10] ++ header ++ [10] ++ blocks.flatMap blockLines ++ footer ++ [10] := rfl
+
 end RTV.ResGen
